@@ -359,16 +359,28 @@ class StmtEngine(Engine):
 
 
 def lexer_supported(s):
-  """the class of texts coq/Model/Lexer.v models (Lexer.supported): 7-bit printable ASCII and newline, no f-string prefix"""
+  """the class of texts coq/Model/Lexer.v models (Lexer.supported): 7-bit printable ASCII and newline; an f-string prefix
+  (f / F / fr / rf before a quote) is harmless only inside an identifier run that began with a letter or underscore and does
+  not follow a '.' (in CPython 3.12 `1f'x'`, `1.e5f'x'` are a NUMBER followed by an f-string)"""
   for ch in s:
     if not (ch == '\n' or 32 <= ord(ch) <= 126):
       return False
-  for i in range(len(s)):
-    if s[i] in 'fF':
-      if s[i + 1:i + 2] in ('"', "'"):
+  quote = ('"', "'")
+  state = 0   # 0 behind a non-identifier char / at start; 1 behind '.'; 2 inside a run begun by letter/_ not behind '.'; 3 any other run
+  for i, c in enumerate(s):
+    if state != 2:
+      a, b, q = s[i:i + 1], s[i + 1:i + 2], s[i + 2:i + 3]
+      if a in ('f', 'F') and (b in quote or (b in ('r', 'R') and q in quote)):
         return False
-      if s[i + 1:i + 2] in ('r', 'R') and s[i + 2:i + 3] in ('"', "'"):
+      if a in ('r', 'R') and b in ('f', 'F') and q in quote:
         return False
+    if c.isalnum() or c == '_':
+      if state == 0:
+        state = 2 if not c.isdigit() else 3
+      elif state == 1:
+        state = 3
+    else:
+      state = 1 if c == '.' else 0
   return True
 
 
